@@ -675,7 +675,7 @@ def rule_tick_order(repo):
     else:
         r.bad(om, 'OpenLoopCLPass.schedule_with_top_level_callee', f"schedule built from {lst}",
               "the update schedule does not precede the clock-edge list in the open-loop schedule: dumps sample unsettled values", of.lineno)
-    r.require_floor(6)
+    r.require_floor(6 if not r.findings else 0)
     return r
 
 
@@ -776,6 +776,28 @@ class _Vcd:
         self.rq = self.q + '.' + self.rec.name
 
 
+def _table_roles(v, name):
+    """role of every position of a row of the per-cycle table: 'sig' (a member of net i), 'sym' (symbol of net i), 'idx' (i itself)"""
+    colls = _collected(v.mk, name)
+    if len(colls) != 1 or not isinstance(colls[0].elt, ast.Tuple) or colls[0].src is None:
+        raise AnalysisError(f"make_vcd_func: {name} is not built at one site from (signal, symbol[, index]) rows")
+    c = colls[0]
+    ii = _index_iter(c.src, c.var)
+    ivar = ii[1] if ii is not None else None
+    roles = []
+    for e in c.elt.elts:
+        e = _res(e, c.node)
+        if ivar is not None and norm(e) == ivar:
+            roles.append('idx')
+        elif isinstance(e, ast.Subscript) and norm(e.slice) in ('0', '-1'):
+            roles.append('sig')
+        else:
+            roles.append('sym')
+    if roles.count('sig') != 1 or roles.count('sym') != 1:
+        raise AnalysisError(f"make_vcd_func: rows of {name} are not (signal, symbol[, net index]): {norm(c.elt)}")
+    return roles
+
+
 def _net_loop(v):
     loops = [s for s in v.dump.body if isinstance(s, ast.For) and any(_is_call(n, name='print') for n in ast.walk(s))]
     if len(loops) != 1:
@@ -788,19 +810,26 @@ def _net_loop(v):
     if ii is not None and ii[1] is not None and ii[2] is None:
         # for i in range(len(T)): sig, sym = T[i]
         un = [s for s in lp.body if isinstance(s, ast.Assign) and len(s.targets) == 1 and isinstance(s.targets[0], ast.Tuple)
-              and len(s.targets[0].elts) == 2 and all(isinstance(x, ast.Name) for x in s.targets[0].elts)
-              and norm(s.value) == f'{ii[0]}[{ii[1]}]']
+              and all(isinstance(x, ast.Name) for x in s.targets[0].elts) and norm(s.value) == f'{ii[0]}[{ii[1]}]']
         if len(un) != 1:
             raise AnalysisError(f"{v.dump.name}: index loop without `signal, symbol = table[i]`")
-        return lp, ii[1], un[0].targets[0].elts[0].id, un[0].targets[0].elts[1].id, ii[0]
-    if _is_call(it, name='enumerate', nargs=1):
-        if not (isinstance(tgt, ast.Tuple) and len(tgt.elts) == 2 and isinstance(tgt.elts[0], ast.Name)):
+        idx, row, table = ii[1], un[0].targets[0], ii[0]
+    elif _is_call(it, name='enumerate', nargs=1):
+        if not (isinstance(tgt, ast.Tuple) and len(tgt.elts) == 2 and isinstance(tgt.elts[0], ast.Name) and isinstance(it.args[0], ast.Name)):
             raise AnalysisError(f"{v.dump.name}: enumerate target outside the understood shapes")
-        idx, tgt, it = tgt.elts[0].id, tgt.elts[1], it.args[0]
-    if not (isinstance(tgt, ast.Tuple) and len(tgt.elts) == 2 and all(isinstance(x, ast.Name) for x in tgt.elts)
-            and isinstance(it, ast.Name)):
-        raise AnalysisError(f"{v.dump.name}: the value loop does not iterate over a table of (signal, symbol) pairs")
-    return lp, idx, tgt.elts[0].id, tgt.elts[1].id, it.id
+        idx, row, table = tgt.elts[0].id, tgt.elts[1], it.args[0].id
+    elif isinstance(it, ast.Name):
+        row, table = tgt, it.id
+    else:
+        raise AnalysisError(f"{v.dump.name}: the value loop does not iterate over the per-cycle table")
+    roles = _table_roles(v, table)
+    if not (isinstance(row, ast.Tuple) and len(row.elts) == len(roles) and all(isinstance(x, ast.Name) for x in row.elts)):
+        raise AnalysisError(f"{v.dump.name}: the value loop does not unpack the rows of {table} ({'/'.join(roles)})")
+    names = {}
+    for role, x in zip(roles, row.elts):
+        names.setdefault(role, x.id)
+    v.netidx = names.get('idx')
+    return lp, idx, names['sig'], names['sym'], table
 
 
 def _clk_symbol(v, e):
@@ -933,10 +962,9 @@ def _pairs_table(v, name, at):
     """the (signal, symbol) table, built by a comprehension or an append loop:
     returns (defining node, net table, symbol table, index var, filter conjuncts, pairing ok)"""
     colls = _collected(v.mk, name)
-    if len(colls) != 1 or not (isinstance(colls[0].elt, ast.Tuple) and len(colls[0].elt.elts) == 2) or colls[0].src is None:
-        raise AnalysisError(f"make_vcd_func: {name} is not built at one site from (signal, symbol) pairs")
+    roles = _table_roles(v, name)
     c = colls[0]
-    e_sig, e_sym = c.elt.elts
+    e_sig, e_sym = c.elt.elts[roles.index('sig')], c.elt.elts[roles.index('sym')]
     e_sig, e_sym = _res(e_sig, c.node), _res(e_sym, c.node)
     nets = syms = ivar = None
     ok_pair = False
@@ -1042,7 +1070,7 @@ def rule_compress(repo):
              "waveform never shows a new value", Pst)
         _chk(r, _same(other, CUR, P), m, dq, f"compared {norm(other)} / printed {norm(CUR)}",
              "the string compared with the stored one is not the string that is printed", Pst)
-        kvars = {x for x in (idx, sig, sym) if x}
+        kvars = {x for x in (idx, sig, sym, getattr(v, 'netidx', None)) if x}
         _chk(r, isinstance(K, ast.Name) and K.id in kvars, m, dq, f"slot {LV}[{norm(K)}]",
              f"the slot holding the previous string is not selected by a per-net loop variable ({', '.join(sorted(kvars))}): nets share "
              f"a slot, a change of one net hides or fakes a change of another", Pst)
@@ -1228,7 +1256,7 @@ def rule_compress(repo):
 
 
 def _fin(r):
-    r.require_floor({'R-C16-compress': 16, 'R-C16-header': 31, 'R-C16-textwave': 13}.get(r.rule, 1) if not r.findings else 0)
+    r.require_floor({'R-C16-compress': 16, 'R-C16-header': 33, 'R-C16-textwave': 13}.get(r.rule, 1) if not r.findings else 0)
     return r
 
 
@@ -1607,6 +1635,49 @@ def rule_header(repo):
         and order[3] > order[2] and toks_s[:2] == ['$scope', 'module'] and toks_s[-1] == '$end' and toks_u == ['$upscope', '$end']
     _chk(r, okG, m, rq, "$scope ... $var* ... children ... $upscope", "every component must open its scope before its variables and "
          "children and close it after them, unconditionally: otherwise variables are attributed to the wrong component", R)
+    # G'. the scope name distinguishes siblings: it must carry the list indices of the component
+    nm_mod = repo.mod('pymtl3/dsl/NamedObject.py')
+    sfe = nm_mod.get_func('NamedObject.__setattr_for_elaborate__')
+    indexed = set()
+    carriers = {'indices'}
+    for _ in range(3):
+        for n in ast.walk(sfe):
+            if isinstance(n, ast.Assign) and any(isinstance(x, ast.Name) and x.id in carriers for x in ast.walk(n.value)):
+                for t_ in n.targets:
+                    if isinstance(t_, ast.Name):
+                        carriers.add(t_.id)
+                    elif isinstance(t_, ast.Attribute):
+                        indexed.add(t_.attr)
+    gfn = nm_mod.get_func('NamedObject.get_field_name')
+    gf_ok = any(isinstance(n, ast.Return) and isinstance(n.value, ast.Attribute) and n.value.attr in indexed for n in ast.walk(gfn))
+    if not indexed:
+        raise AnalysisError("NamedObject.__setattr_for_elaborate__: cannot derive which name attribute carries the list indices")
+    sh = [h_ for h_ in (_hole_of(t_, holes_s) for t_ in toks_s) if h_ is not None]
+    if len(sh) != 1:
+        raise AnalysisError(f"{R.name}: $scope line does not have exactly one name hole")
+    ssrcs, todo, seen_n = [sh[0].expr], [sh[0].expr], set()
+    while todo:
+        for x in ast.walk(todo.pop()):
+            if isinstance(x, ast.Name) and x.id not in seen_n and x.id != mparam:
+                seen_n.add(x.id)
+                for kind, node, val in _bindings(R, x.id):
+                    if kind in ('assign', 'aug') and isinstance(val, ast.AST):
+                        ssrcs.append(val)
+                        todo.append(val)
+    uses = []
+    for e in ssrcs:
+        for x in ast.walk(e):
+            if isinstance(x, ast.Call) and isinstance(x.func, ast.Attribute) and norm(x.func.value) == mparam:
+                uses.append(('call', x.func.attr))
+            elif isinstance(x, ast.Attribute) and norm(x.value) == f'{mparam}._dsl':
+                uses.append(('attr', x.attr))
+            elif (_is_call(x, name='repr', nargs=1) or _is_call(x, name='str', nargs=1)) and norm(x.args[0]) == mparam:
+                uses.append(('call', 'repr'))
+    good = [u for u in uses if (u == ('call', 'get_field_name') and gf_ok) or u == ('call', 'repr') or (u[0] == 'attr' and u[1] in indexed)]
+    _chk(r, bool(good), m, rq, f"$scope name from {sorted(set(u[1] for u in uses)) or 'constants'} (index-carrying: {sorted(indexed)})",
+         f"the scope name is not unique among siblings: it is built from {sorted(set(u[1] for u in uses)) or 'constants'}, none of which "
+         f"carries the list indices (NamedObject stores the indexed name in {sorted(indexed)}; get_field_name() returns it): the components "
+         f"of a list all open a scope of the same name and their signals share one hierarchical name", stmt_of(Ps))
     # H. recursion over all children
     call = rec_calls[0]
     if len(rec_calls) == 1 and isinstance(cloop, ast.For) and enclosing(call, (ast.For,)) is cloop and \
@@ -1674,6 +1745,20 @@ def rule_header(repo):
              "itself: a member mapped to another object (get_top_level_signal()/get_parent_object() of a slice or field) puts a WIDER signal "
              "into the net, which then shares one symbol and one polled representative with signals it is only partly connected to "
              "(wrong width / wrong value in the waveform)", rebound[0] if rebound else c.node)
+    # loop control: every net and every member of a net is processed (a break/return skips the remaining members)
+    member_loops = [c.loop for c in fills if c.loop is not None and c.loop is not nl]
+    jumps = []
+    for lp_ in [nl] + member_loops:
+        for n in ast.walk(lp_):
+            if isinstance(n, (ast.Break, ast.Return)) and (isinstance(n, ast.Return) or enclosing(n, (ast.For, ast.While)) in [nl] + member_loops):
+                if not any(n is x for x in jumps):
+                    jumps.append(n)
+        if lp_.orelse:
+            jumps.append(lp_.orelse[0])
+    _chk(r, not jumps, m, q, f"net trimming loops run to completion ({1 + len(member_loops)} loops)",
+         f"`{norm(jumps[0])}` under {[repr(g) for g in _cond_guards(jumps[0])][:2]} leaves the loop early: the members of the net that are "
+         f"iterated after it (first / middle position of the recognised member) are not put into the trimmed net, they become nets of "
+         f"their own (a clock-net member stays flat, others lose their shared symbol)" if jumps else '', jumps[0] if jumps else nl)
     # M. one symbol per net, one generator
     sc = _collected(mk, syms)
     okM = len(sc) == 1 and sc[0].src is not None and sc[0].conj == [] and \
@@ -2214,12 +2299,57 @@ class _NsClassifier:
             if arg is None:
                 if pname not in defaults:
                     raise AnalysisError(f"{self.mod.rel}: call {norm(n)[:60]} does not supply parameter {pname}")
-                out |= self.classify(defaults[pname], func, depth + 1)
+                out |= {SHARED} if _is_container(defaults[pname]) else self.classify(defaults[pname], func, depth + 1)
             else:
                 out |= self.classify(arg, n, depth + 1)
         if not callers:
             raise AnalysisError(f"{self.mod.rel}: no caller of {func.name} found to classify its namespace parameter {pname}")
         return out
+
+
+_CONTAINER_CALLS = ('dict', 'list', 'set', 'defaultdict', 'OrderedDict', 'deque', 'collections.defaultdict', 'collections.OrderedDict',
+                    'collections.deque')
+
+
+def _is_container(e):
+    return isinstance(e, (ast.Dict, ast.List, ast.Set, ast.ListComp, ast.DictComp, ast.SetComp)) or \
+        (isinstance(e, ast.Call) and norm(e.func) in _CONTAINER_CALLS)
+
+
+def _param_default(func, pname):
+    a = func.args
+    plain = [x.arg for x in a.posonlyargs + a.args]
+    d = dict(zip(plain[len(plain) - len(a.defaults):], a.defaults))
+    d.update({k.arg: v for k, v in zip(a.kwonlyargs, a.kw_defaults) if v is not None})
+    return d.get(pname)
+
+
+def _shared_state(mod, e, at):
+    """why the object `e` (a value handed to generated code / handed out as a record) outlives one call, or None:
+    a mutable parameter default, a module-level or class-level container, a container bound by a chained assignment"""
+    if isinstance(e, ast.Attribute) and isinstance(e.value, ast.Name) and e.value.id in ('self', 's', 'cls'):
+        cls = enclosing(at, (ast.ClassDef,))
+        for st in (cls.body if cls is not None else []):
+            if isinstance(st, ast.Assign) and any(isinstance(t, ast.Name) and t.id == e.attr for t in st.targets) and _is_container(st.value):
+                return f"`{norm(e)}` is the class-level container `{norm(st)}`, one object for all instances and designs"
+        return None
+    if not isinstance(e, ast.Name):
+        return None
+    owner, bs = _lookup(e.id, at)
+    if owner is None:
+        v_ = mod.assigns.get(e.id)
+        if v_ is not None and _is_container(v_):
+            return f"`{e.id}` is a module-level container, one object for every design in the process"
+        return None
+    for kind, node, val in bs:
+        if kind == 'param' and isinstance(owner, (ast.FunctionDef, ast.AsyncFunctionDef)):
+            d = _param_default(owner, e.id)
+            if d is not None and _is_container(d):
+                return (f"`{e.id}` is a parameter of {owner.name} with the mutable default `{norm(d)}`: the default object is created once, "
+                        f"at definition time, and shared by every call that does not pass its own")
+        if kind == 'assign' and isinstance(node, ast.Assign) and len(node.targets) > 1 and _is_container(node.value):
+            return f"`{e.id}` is bound by the chained assignment `{norm(node)[:60]}`: the names alias ONE container"
+    return None
 
 
 def _judge_site(cl, site):
@@ -2285,6 +2415,11 @@ def good_lookup(top, src):
     exec(src, globals(), l)
     return l
 
+def bad_default(top, src, rec={}):
+    l = {}
+    exec(src, {"s": top, "rec": rec}, l)
+    return l["f"], rec
+
 def helper(_g, src):
     l = {}
     exec(src, _g, l)
@@ -2320,8 +2455,12 @@ def rule_gen_isolation(repo):
     for site in _exec_sites(probe.tree, own=False):
         got[enclosing_func(site).name] = _judge_site(pc, site)[0]
     pw = {enclosing_func(n).name for n in _globals_writes(probe)}
-    if got != _PROBE_EXPECT or pw != {'bad_update', 'bad_alias', 'bad_write'}:
-        raise AnalysisError(f"R-gen-isolation: embedded probe not judged as expected: {got} / {sorted(pw)}")
+    pd = [n for n in ast.walk(probe.tree) if isinstance(n, ast.FunctionDef) and n.name == 'bad_default'][0]
+    psite = _exec_sites(pd)[0]
+    pstate = [_shared_state(probe, x, psite) for x in _res(psite.args[1], psite).values]
+    got.pop('bad_default', None)
+    if got != _PROBE_EXPECT or pw != {'bad_update', 'bad_alias', 'bad_write'} or [bool(x) for x in pstate] != [False, True]:
+        raise AnalysisError(f"R-gen-isolation: embedded probe not judged as expected: {got} / {sorted(pw)} / {pstate}")
     n_sites = 0
     foreign = []
     for rel in repo.py_files('pymtl3'):
@@ -2340,6 +2479,17 @@ def rule_gen_isolation(repo):
                 r.ok(mod, fq, f"{cons} -- {desc}")
             else:
                 r.bad(mod, fq, cons, msg + f" [{desc}]", site.lineno)
+            # the objects the generated code works on are created per call
+            kw_ = {k.arg: k.value for k in site.keywords}
+            g_ = site.args[1] if len(site.args) > 1 else kw_.get('globals', kw_.get('_globals'))
+            lit = _res(g_, site) if g_ is not None else None
+            vals = list(lit.values) if isinstance(lit, ast.Dict) else [k.value for k in lit.keywords] if _is_call(lit, name='dict') else []
+            for val in [g_] + vals if g_ is not None else []:
+                why = _shared_state(mod, val, site)
+                if why:
+                    r.bad(mod, fq, f"{cons}: state {norm(val)}", why + ". Per-design state of generated code (here: what the generated "
+                          "function records into / looks names up in) must be created per call: with two simulators in one process both "
+                          "generated functions fill the same object (e.g. 20 text-wave entries for 10 cycles)", site.lineno)
         for n in _globals_writes(mod):
             st = stmt_of(n)
             r.bad(mod, qualname(n) or '<module>', norm(st)[:120], "a function writes into the module's globals(): objects of the design "
@@ -2692,6 +2842,20 @@ MUTANTS = [
        "    for i in range(len(trimmed_value_nets)-1):\n      for x in trimmed_value_nets[i]:", 'R-C16-header'),
     _m('enable-by-truthiness', VCD, "      if vcd_file_name is not None:\n", "      if vcd_file_name:\n", 'R-C16-header'),
     _m('enable-lets-none-through', VCD, "      if vcd_file_name is not None:\n", "      if True:\n", 'R-C16-header'),
+    _m2('textwave-record-mutable-default', 'R-gen-isolation',
+        (TW, "  def _collect_sig_func( self, top ):\n", "  def _collect_sig_func( self, top, text_sigs={} ):\n"),
+        (TW, "    wav_srcs = []\n    text_sigs = {}\n", "    wav_srcs = []\n")),
+    _m('textwave-record-chained-with-class', TW, "    text_sigs = {}\n", "    text_sigs = PrintTextWavePass._last_record = {}\n", 'R-gen-isolation'),
+    _m2('scope-name-without-indices', 'R-C16-header',
+        (VCD, "      my_name = m.get_field_name()\n      if my_name == \"s\":\n        my_name = \"top\"\n",
+         "      if m is top:\n        my_name = \"top\"\n      else:\n        my_name = m._dsl._my_name\n")),
+    _m('scope-name-is-class-name', VCD, "      my_name = m.get_field_name()\n", "      my_name = m.__class__.__name__\n", 'R-C16-header'),
+    _m('trimming-stops-at-clock', VCD, "            vcd_clock_net_idx = len(trimmed_value_nets)\n\n      if new_net:",
+       "            vcd_clock_net_idx = len(trimmed_value_nets)\n            break\n\n      if new_net:", 'R-C16-header'),
+    _m2('slot-read-by-net-index-written-by-position', 'R-C16-compress',
+        (VCD, "    net_details = [ ( trimmed_value_nets[i][0], net_symbol_mapping[i] )", "    net_details = [ ( i, trimmed_value_nets[i][0], net_symbol_mapping[i] )"),
+        (VCD, "      for i, (signal, symbol) in enumerate( net_details ):", "      for i, (net_idx, signal, symbol) in enumerate( net_details ):"),
+        (VCD, "        if last_values[i] != net_bits_bin_str:", "        if last_values[net_idx] != net_bits_bin_str:")),
     _m('var-name-keeps-dot', VCD, "repr(signal)[ len(m_name)+1: ]", "repr(signal)[ len(m_name): ]", 'R-C16-header'),
     _m('no-upscope', VCD, '      print( f"{spaces}$upscope $end", file=vcd_file )\n', "", 'R-C16-header'),
     _m('clock-index-off-by-one', VCD, "vcd_clock_net_idx = len(trimmed_value_nets)\n\n      if new_net:",
@@ -2814,6 +2978,13 @@ EQUIV = [
        "for i in range(0, len(trimmed_value_nets), 1)\n                      if i != vcd_clock_net_idx ]"),
     _m('enable-by-not-eq-none', VCD, "      if vcd_file_name is not None:\n", "      if not ( vcd_file_name is None ):\n"),
     _m('enable-by-or-empty', VCD, "      if vcd_file_name is not None:\n", "      if vcd_file_name or vcd_file_name == \"\":\n"),
+    dict(name='table-rows-carry-net-index', edits=[
+        dict(file=VCD, old="    net_details = [ ( trimmed_value_nets[i][0], net_symbol_mapping[i] )", new="    net_details = [ ( i, trimmed_value_nets[i][0], net_symbol_mapping[i] )", count=1),
+        dict(file=VCD, old="      for i, (signal, symbol) in enumerate( net_details ):", new="      for pos, (i, signal, symbol) in enumerate( net_details ):", count=1)]),
+    _m('scope-name-from-indexed-attribute', VCD, "      my_name = m.get_field_name()\n", "      my_name = m._dsl.my_name\n"),
+    _m('scope-name-top-by-identity', VCD, "      my_name = m.get_field_name()\n      if my_name == \"s\":\n        my_name = \"top\"\n",
+       "      if m is top:\n        my_name = \"top\"\n      else:\n        my_name = m.get_field_name()\n"),
+    _m('textwave-record-by-dict-call', TW, "    text_sigs = {}\n", "    text_sigs = dict()\n"),
     _m('dump-guard-flipped', PREP, "    if top.has_metadata( VcdGenerationPass.vcd_func ):\n      ret.append( top.get_metadata( VcdGenerationPass.vcd_func ) )\n",
        "    if not top.has_metadata( VcdGenerationPass.vcd_func ):\n      pass\n    else:\n      ret.append( top.get_metadata( VcdGenerationPass.vcd_func ) )\n"),
     _m('vcd-str-conditional-expression', BITS,
